@@ -104,14 +104,29 @@ def run(tier, seed, replay=None):
         if mc.get("never_taken"):
             raise tlc.TLCError(f"vacuity: actions never taken in Capture: {mc['never_taken']}")
         r = tlc.model_check("Capture", cfg_text=core.set_deviations(cfg_text, ["Dev_UnlockedRead"]), expect_ok=False, coverage=False, timeout=600)
-        res.coverage["deviation_selftest"] = {"Dev_UnlockedRead": r["errors"][:1]}
+        r2 = tlc.model_check("Capture", cfg_text=cfg_text.replace("FROrder <- CodeOrder", "FROrder <- EmptyFirst"), expect_ok=False, coverage=False, timeout=600)
+        res.coverage["deviation_selftest"] = {"Dev_UnlockedRead": r["errors"][:1], "FROrder=EmptyFirst": r2["errors"][:1]}
         scns = universe(tier, rng, core.streams(tier, seed))
-    out = pool.run("capture", scns, hooks=True, timeout=3000, nproc=8)
+    if not replay:
+        scns = scns + [{"flags": list(f)} for f in itertools.product((True, False), repeat=3)]
+    out = pool.run("capture", scns, hooks=True, timeout=1200, nproc=8)
+    never = 0
+    for t, sc in zip(out, scns):
+        if t.get("worker_failed"):
+            # the worker was ended by its watchdog (or died) in this scenario: a capture that never returned
+            if t.get("first_missing") and "flags" not in sc:
+                never += 1
+                res.violation(f"capture never returned (worker ended by the watchdog): {json.dumps(sc)[:400]}", {"trace": {"scn": sc}})
+    res.coverage["captures_that_never_returned"] = never
+    out = [t for t in out if not t.get("worker_failed")]
     bad_workers = [t for t in out if "steps" not in t]
     if bad_workers:
         raise tlc.TLCError("driver failure: " + json.dumps(bad_workers[0])[:3000])
     # the property's own observable, judged by Capture!ObsJudge
     otraces = []
+    order_runs = [t for t in out if t.get("order")]
+    res.coverage["captures_skipped_after_hangs"] = sum(1 for t in out if t.get("skipped"))
+    out = [t for t in out if not t.get("order") and not t.get("skipped")]
     for t in out:
         o = t["steps"][0]["obs"]
         s = t["scn"]
@@ -120,7 +135,7 @@ def run(tier, seed, replay=None):
         view = {"dollar": "dollar", "object": "out", "iter": "iter"}[s["form"]]
         otraces.append({"scn": s, "cmd": t["cmd"], "obs": o, "feat": {"payload": s["payload"], "size": s["size"], "view": view},
                         "steps": [{"cmd": "capture", "obs": {"ok": bool(o["ok"]), "rawok": bool(rawok)}}]})
-    ocfg = "SPECIFICATION Spec\nCONSTANTS\n  N = 1\n  PipeCap = 1\n  ReadMax = 1\n  Hint = 1\n  Deviations = {}\n"
+    ocfg = "SPECIFICATION Spec\nCONSTANTS\n  N = 1\n  PipeCap = 1\n  ReadMax = 1\n  Hint = 1\n  FROrder <- CodeOrder\n  Deviations = {}\n"
     ostats = core.validate_with_findings(res, "CaptureObsTrace", otraces, ocfg, describe=describe_obs, timeout=3000, project=lambda t: {"feat": t["feat"], "steps": t["steps"]})
     # recorded schedule-point events of threaded single-stage runs against CaptureTrace
     traces = []
@@ -128,8 +143,12 @@ def run(tier, seed, replay=None):
         s = t["scn"]
         evs = [e for e in t["events"] if e["ev"] != "recovery.iter"]
         if s.get("stage", "proc") == "proc" and not s.get("err_noise") and any(e["ev"] == "copier.tell" for e in evs) and t["nevents"] < 3900:
-            steps = [{"ev": e["ev"], "fd": int(e.get("fd", 0)), "n": int(e.get("n", 0)), "pos": int(e.get("pos", 0))} for e in evs]
+            steps = [{"ev": e["ev"], "fd": int(e.get("fd", 0)), "n": int(e.get("n", 0)), "pos": int(e.get("pos", 0)), "flag": ""} for e in evs]
             traces.append({"scn": s, "cmd": t["cmd"], "tsteps": steps, "steps": steps})
+    # the order of the three reads of the real "fully read?" (every combination of flag values)
+    for t in order_runs:
+        if t.get("order"):
+            traces.append({"scn": t["scn"], "cmd": "QueueReader.is_fully_read() on an instrumented reader", "tsteps": [dict(ev=e["ev"], flag=e["flag"], fd=0, n=0, pos=0) for e in t["steps"]], "steps": t["steps"]})
     tcfg = "SPECIFICATION TSpec\nCONSTANTS\n  Deviations = {}\n"
     stats = core.validate_with_findings(res, "CaptureTrace", traces, tcfg, describe=describe, timeout=3000, project=slim) if traces else {"validated": 0}
     kinds = {}
@@ -153,7 +172,7 @@ def run(tier, seed, replay=None):
     cov.update(res.coverage)
     core.write_evidence(res, "model_checking", cov, assumptions=[
         "schedules are perturbed by delays at the schedule points, not fully controlled: the design is decided by TLC on Capture for all interleavings, the code by the observable under the perturbed schedules and by validating the recorded events against CaptureTrace",
-        "hang = 60 s for one capture (the pinned tree needs at most about 1 s)",
+        "hang = 30 s for one capture (the pinned tree needs at most about 3 s)",
         "grand-children holding a pipe open and Windows console capture are out of scope",
     ])
     return core.finish(res)
